@@ -130,6 +130,9 @@ def lp_items(pid, tier, seed):
             I.family_W(big=False),
             lambda i: optvecs(True, ((False, False), (False, True)),
                               none + [[("maxsize", ())]]))
+        add("W3 ids above 256 (302 projects) x (0,0),(0,1) x {none, maxsize}",
+            I.family_W3(),
+            lambda i: optvecs(True, ((False, False), (False, True)), none + [[("maxsize", ())]]))
         add("W 11 students (incl. 11 x 11 with pairs (1,11),(11,1)) x (0,0),(0,1) x {maxsize, mincost}",
             [x for x in I.family_W() if x.ns == 11],
             lambda i: optvecs(True, ((False, False), (False, True)),
@@ -242,6 +245,8 @@ def lp_items(pid, tier, seed):
             lambda i: optvecs(True, st, sizecrit))
         add("M medium structured (4-5 students, 4 projects, 2-3 lecturers) x pc x -stab x {none,maxsize,minsize}",
             I.family_M(), lambda i: optvecs(True, st, sizecrit))
+        add("W3 ids above 256 (302 projects, contested 257/258 and 301/302, control 11/12) x -stab x {none,maxsize,minsize}",
+            I.family_W3(), lambda i: optvecs(True, ((False, True),), sizecrit))
         add("F4 (student lists over four projects) x {unit,cap2} x -stab x {none,maxsize}",
             I.family_F4(profiles=("unit", "cap2")),
             lambda i: optvecs(True, ((False, True),), none + [[("maxsize", ())]]))
